@@ -116,6 +116,9 @@ def _oracle_sig(o: str) -> dict:
 
 def _eval_case(case: dict) -> Tuple[List[dict], List[str], List[str], List[str]]:
     """Run one case on both sides. Returns (failures [{sig, what}], lines, impl, model)."""
+    if case.get("kind") == "rtinstall":   # implementation-side family: the oracle is theorem C12_runtime_routes_refused
+        fs, _ = rig.run_rtinstall(case)
+        return [{"sig": _oracle_sig(o), "what": "oracle: " + o} for o in fs], [], [], []
     lines, impl, oracle, _ = rig.run_case(case)
     model = run_driver(EXE, lines)
     fails = []
@@ -204,7 +207,7 @@ def run(ctx: Ctx):
                 found = [l for l in res.stdout.splitlines() if " counter-model " in l]
                 tried = [l for l in res.stdout.splitlines() if " ok " in l]
                 ctx.oblige("model:translated power methods agree with the model on every small node (counter-model search)",
-                           "correspondence", not found and len(tried) == 6, " || ".join(found)[:3000] or res.stdout[:500])
+                           "correspondence", not found and len(tried) == 12, " || ".join(found)[:3000] or res.stdout[:500])
                 for l in found:
                     ctx.notes.append("counter-model of a translated power method: " + l[:1200])
                     cm_cases.append((l.split()[0], _case_from_counter_model(l)))
@@ -330,6 +333,41 @@ def run(ctx: Ctx):
         cases.append((f"sess:{k}", rig.gen_sessions(rng)))
 
     only = [x for x in os.environ.get("C12_FAMILIES", "").split(",") if x]
+    # --- round 7c: routes registered at RUN TIME. An application is installed during the episode (by request / by the software
+    #     manager), the node leaves ON, every leaf of its LIVE request tree is sent: all must answer `failure` and change nothing
+    #     (theorem C12_runtime_routes_refused + C12_refused_unless_startup_all_classes, read on the implementation)
+    rt_fail, rt_seen = 0, set()
+    for c in (rig.runtime_install_cases() if (not only or "rtinstall" in only) else []):
+        try:
+            fs, h = rig.run_rtinstall(c)
+        except Exception as e:
+            raise RuntimeError(f"rig failed on rtinstall {c}: {type(e).__name__}: {e}")
+        ctx.case(c, True)
+        ctx.count("family:rtinstall")
+        ctx.cov["traces_validated_against_impl"] += 1
+        for k, v in h.items():
+            ctx.count("rtinstall:" + k, v)
+        if fs:
+            rt_fail += 1
+        for o in fs:
+            key = json.dumps(_oracle_sig(o), sort_keys=True)
+            if key in rt_seen:
+                continue
+            rt_seen.add(key)
+            small = c
+            if " -> " in o.split("|", 2)[2]:
+                cand = dict(c, only=o.split("|", 2)[2].split(" -> ")[0].split("/"))
+                if any(json.dumps(f["sig"], sort_keys=True) == key for f in _eval_case(cand)[0]):
+                    small = cand
+            ctx.violation(_oracle_sig(o), "oracle: " + o, {"case": small, "lines": [], "impl": [], "model": [], "from": "rtinstall"})
+    if not only or "rtinstall" in only:
+        blind = not (ctx.hist.get("rtinstall:installed-at-run-time", 0) and ctx.hist.get("rtinstall:answer:runtime:failure", 0)
+                     and ctx.hist.get("rtinstall:answer:other:failure", 0))
+        ctx.oblige("rig:every leaf of the live request tree (routes registered at run time included) is refused while the node is not ON",
+                   "correspondence", rt_fail == 0 and not blind,
+                   f"{rt_fail} case(s) failed; installed at run time: {ctx.hist.get('rtinstall:installed-at-run-time', 0)}, "
+                   f"requests sent: {ctx.hist.get('rtinstall:leaves-sent', 0)}, of which to run-time routes and refused: "
+                   f"{ctx.hist.get('rtinstall:answer:runtime:failure', 0)}")
     if only:   # development aid (mutation self-checks): run the named families only; recorded in the evidence
         cases = [(nm, c) for nm, c in cases if nm.split(":")[0] in only]
         ctx.notes.append(f"C12_FAMILIES={','.join(only)}: only these case families were run (development setting, not the check as shipped)")
